@@ -9,10 +9,7 @@
 use std::cell::RefCell;
 use std::collections::BTreeMap;
 
-pub mod sync {
-    //! Lock types owned by the simulator: every acquire/release is a scheduling point.
-    pub use shuttle::sync::{Mutex, MutexGuard, RwLock, RwLockReadGuard, RwLockWriteGuard};
-}
+pub mod sync;
 
 pub mod fs;
 pub mod sched;
@@ -200,6 +197,7 @@ pub fn current_task() -> Option<u32> {
 pub struct InjectedPanic(pub String);
 
 pub fn begin_run(cfg: RunCfg, disk: fs::Disk) {
+    sync::reset_pending();
     let hash_rng = Rng::new(mix(cfg.hash_key, 0x4841_5348)); // "HASH"
     let bug_rng = Rng::new(mix(cfg.buggify_key, 0x4255_4747)); // "BUGG"
     let shim_rng = Rng::new(mix(cfg.buggify_key, 0x5348_494D)); // "SHIM"
